@@ -454,8 +454,10 @@ inductive Op
   | sig (signers : List Addr) (addr : Addr) (subject sig : Bytes)
   /-- consensus_vote.VoteHandler.MakeDepositProposal: a vote of relayer `relayer` (a validator) for the source
   transaction with vote id `id` (SHA-256 of source chain id, height and payload: an oracle value of the op line);
-  `ccid` is the cross chain id in the payload (`none`: the payload does not decode) -/
-  | deposit (signers : List Addr) (relayer : Addr) (chain : Nat) (id : Bytes) (ccid : Option Bytes)
+  `ccid` is the cross chain id in the payload (`none`: the payload does not decode); `cont`: the handler's continuation
+  after the done-transaction mark succeeds (always for the vote handler; for ripple_handler.MakeDepositProposal, which
+  runs the same vote phase, the asset-binding lookups and the decoding of the arguments: an oracle value) -/
+  | deposit (signers : List Addr) (relayer : Addr) (chain : Nat) (id : Bytes) (ccid : Option Bytes) (cont : Bool)
   /-- txnpool/proc: is a transaction signed by `signers` admitted? -/
   | submit (signers : List Addr)
   /-- txnpool/proc updatePermittedAddrMap (`operator`: multi-signature address of all pool members, an oracle value;
@@ -696,7 +698,7 @@ def plan (s : State) : Op → M Plan
         | some (info, released) =>
           .ok (.done { st := { s with votes := alPut s.votes id info }, ret := if released then "1" else "0", events := [] })
   -- VoteHandler.MakeDepositProposal: witness, CheckVotes, and on release the payload must decode and must not be done
-  | .deposit sg relayer chain id ccid =>
+  | .deposit sg relayer chain id ccid cont =>
     if !witness sg relayer then .error .err else
     if ((alGet s.votes id).getD (false, [])).1 then .ok (.done { st := s, ret := "0", events := [] }) else
     match curPool s with
@@ -713,6 +715,7 @@ def plan (s : State) : Op → M Plan
           | none => .error .err
           | some c =>
             if s.doneTx.contains (chain, c) then .error .err else
+            if !cont then .error .err else
             .ok (.done { st := { s with votes := alPut s.votes id info, doneTx := s.doneTx ++ [(chain, c)] }, ret := "1", events := [] })
   -- signature_manager.AddSignature / CheckSigns
   | .sig sg a subject sig =>
